@@ -530,9 +530,208 @@ func init() {
 			}
 		}
 		x.defStrList("formatterSharedWrites", shared)
+
+		// ---- main.go: how the access logger and the proxy are wired together (no harness runs main) ----
+		c20MainWiring(x)
+
 		x.defStrList("pinNotes", pinNotes)
 		return nil
 	})
+}
+
+// c20MainWiring: in the function of package main that builds the proxy.HTTPProxy literal —
+//   mainFormatAliases  the names that stand for a format constant: `<format> == "name"` guarding
+//                      `<format> = logger.<Const>` (switch or if-chain), as "name=Const"
+//   mainLoggerFromNew  the literal's Logger field is the (only) result variable of logger.New(w, <format>), where
+//                      <format> is the variable the aliases assign to, initialised from the access format of the config
+//   mainProxyKeys      the fields the literal sets (UUID / Time absent: ServeHTTP falls back to uuid.NewUUID / time.Now)
+//   mainWriterTargets  the access-log targets and what the writer is for each ("" leaves it nil: logger.New
+//                      returns the no-op logger), as "target=writer"
+func c20MainWiring(x *X) {
+	var fn *ast.FuncDecl
+	var lit *ast.CompositeLit
+	for _, f := range x.files(".") {
+		for _, d := range f.Decls {
+			fd, ok := d.(*ast.FuncDecl)
+			if !ok || fd.Body == nil {
+				continue
+			}
+			ast.Inspect(fd.Body, func(n ast.Node) bool {
+				if cl, ok := n.(*ast.CompositeLit); ok && x.src(cl.Type) == "proxy.HTTPProxy" {
+					if lit != nil && fn != fd {
+						x.fail("main: more than one function builds a proxy.HTTPProxy literal")
+					}
+					fn, lit = fd, cl
+				}
+				return true
+			})
+		}
+	}
+	if lit == nil {
+		x.fail("main: no proxy.HTTPProxy literal found")
+		return
+	}
+	var keys []string
+	fields := map[string]ast.Expr{}
+	for _, el := range lit.Elts {
+		if kv, ok := el.(*ast.KeyValueExpr); ok {
+			keys = append(keys, x.src(kv.Key))
+			fields[x.src(kv.Key)] = kv.Value
+		}
+	}
+	x.defSortedStrList("mainProxyKeys", keys)
+
+	// the logger.New call and its result variable
+	var newCalls []*ast.CallExpr
+	resVar, fmtVar, wVar := "", "", ""
+	ast.Inspect(fn.Body, func(n ast.Node) bool {
+		as, ok := n.(*ast.AssignStmt)
+		if !ok || len(as.Rhs) != 1 {
+			return true
+		}
+		if c, ok := as.Rhs[0].(*ast.CallExpr); ok && x.src(c.Fun) == "logger.New" && len(c.Args) == 2 && len(as.Lhs) >= 1 {
+			newCalls = append(newCalls, c)
+			resVar, wVar, fmtVar = x.src(as.Lhs[0]), x.src(c.Args[0]), x.src(c.Args[1])
+		}
+		return true
+	})
+	assigned := func(name string) int { // assignments to a variable in the function, its declaration included
+		n := 0
+		ast.Inspect(fn.Body, func(k ast.Node) bool {
+			switch v := k.(type) {
+			case *ast.AssignStmt:
+				for _, l := range v.Lhs {
+					if x.src(l) == name {
+						n++
+					}
+				}
+			case *ast.ValueSpec:
+				for _, id := range v.Names {
+					if id.Name == name {
+						n++
+					}
+				}
+			}
+			return true
+		})
+		return n
+	}
+	fromNew := len(newCalls) == 1 && fields["Logger"] != nil && x.src(fields["Logger"]) == resVar && assigned(resVar) == 1
+
+	// aliases: `fmtVar == "name"` (or a case clause of `switch fmtVar`) guarding `fmtVar = logger.Const`
+	var aliases []string
+	fmtInit := ""
+	nonAlias := 0
+	var walk func(n ast.Node, guard string)
+	lit2 := func(e ast.Expr) (string, bool) { return x.strLit(e) }
+	walk = func(n ast.Node, guard string) {
+		switch v := n.(type) {
+		case nil:
+		case *ast.BlockStmt:
+			for _, st := range v.List {
+				walk(st, guard)
+			}
+		case *ast.IfStmt:
+			g := ""
+			if be, ok := v.Cond.(*ast.BinaryExpr); ok && be.Op == token.EQL {
+				if s, ok := lit2(be.Y); ok && x.src(be.X) == fmtVar {
+					g = "=" + s
+				} else if s, ok := lit2(be.X); ok && x.src(be.Y) == fmtVar {
+					g = "=" + s
+				}
+			}
+			walk(v.Body, g)
+			if v.Else != nil {
+				walk(v.Else, "")
+			}
+		case *ast.SwitchStmt:
+			for _, c := range v.Body.List {
+				cc := c.(*ast.CaseClause)
+				g := ""
+				if v.Tag != nil && x.src(v.Tag) == fmtVar && len(cc.List) == 1 {
+					if s, ok := lit2(cc.List[0]); ok {
+						g = "=" + s
+					}
+				}
+				for _, st := range cc.Body {
+					walk(st, g)
+				}
+			}
+		case *ast.AssignStmt:
+			for i, l := range v.Lhs {
+				if x.src(l) != fmtVar || len(v.Lhs) != len(v.Rhs) {
+					continue
+				}
+				rhs := x.src(v.Rhs[i])
+				switch {
+				case v.Tok == token.DEFINE:
+					fmtInit = rhs
+				case strings.HasPrefix(guard, "=") && strings.HasPrefix(rhs, "logger."):
+					aliases = append(aliases, guard[1:]+"="+strings.TrimPrefix(rhs, "logger."))
+				default:
+					nonAlias++
+				}
+			}
+		case *ast.ForStmt:
+			walk(v.Body, "")
+		case *ast.RangeStmt:
+			walk(v.Body, "")
+		}
+	}
+	if fmtVar != "" {
+		walk(fn.Body, "")
+	}
+	sort.Strings(aliases)
+	x.defStrList("mainFormatAliases", aliases)
+	x.defBool("mainLoggerFromNew", fromNew && nonAlias == 0 && strings.HasSuffix(fmtInit, ".Log.AccessFormat"))
+
+	// the writer: which access-log target selects which writer
+	var targets []string
+	var tw func(n ast.Node, guard string)
+	tw = func(n ast.Node, guard string) {
+		switch v := n.(type) {
+		case nil:
+		case *ast.BlockStmt:
+			for _, st := range v.List {
+				tw(st, guard)
+			}
+		case *ast.IfStmt:
+			g := "?"
+			if be, ok := v.Cond.(*ast.BinaryExpr); ok && be.Op == token.EQL && strings.HasSuffix(x.src(be.X), ".Log.AccessTarget") {
+				if s, ok := lit2(be.Y); ok {
+					g = "=" + s
+				}
+			}
+			tw(v.Body, g)
+			if v.Else != nil {
+				tw(v.Else, "?")
+			}
+		case *ast.SwitchStmt:
+			for _, c := range v.Body.List {
+				cc := c.(*ast.CaseClause)
+				g := "?"
+				if v.Tag != nil && strings.HasSuffix(x.src(v.Tag), ".Log.AccessTarget") && len(cc.List) == 1 {
+					if s, ok := lit2(cc.List[0]); ok {
+						g = "=" + s
+					}
+				}
+				for _, st := range cc.Body {
+					tw(st, g)
+				}
+			}
+		case *ast.AssignStmt:
+			for i, l := range v.Lhs {
+				if x.src(l) == wVar && len(v.Lhs) == len(v.Rhs) {
+					targets = append(targets, strings.TrimPrefix(guard, "=")+"="+x.src(v.Rhs[i]))
+				}
+			}
+		}
+	}
+	if wVar != "" {
+		tw(fn.Body, "?")
+	}
+	sort.Strings(targets)
+	x.defStrList("mainWriterTargets", targets)
 }
 
 // ---- time / event data flow through the field functions and their helpers ----
